@@ -32,6 +32,12 @@ def check(run):
     nullg(run, p, kc)
     unknown(run, p)
     entry(run, p)
+    preset(run, p)
+    from .common import keyorder_rule
+    n = keyorder_rule(run, 'C09-KEYORDER', p, [f for f in p.funcs.values() if f.rel == 'tdda/constraints/base.py'],
+                      'loading does not depend on the order of keys in the JSON objects (the format says it is immaterial): no loop '
+                      'over a dictionary\'s items carries a plain local from the handling of one key to the handling of another')
+    run.floor('C09-KEYORDER', n, 2)
     from .. import ief, triage
     ief.run_ief(run, 'C09', [p.fn('DatasetConstraints.to_json'), p.fn('DatasetConstraints.load'), p.fn('DatasetConstraints.initialize_from_dict')], triage=triage.IEF)
     run.floor('C09-IEF', run.units['ief_functions_checked'], 10)
@@ -125,6 +131,8 @@ def datetype(run, p):
 def nullg(run, p, kc):
     run.rule('C09-NULLG', 'null-valued constraints load: every constructor that iterates, measures or subscripts its value does so under a '
                           'type/None test, and the date conversion applied by the loader tolerates a null value')
+    from ..pyeval import Interp, Obj, Raised, Unsupported
+    I = Interp(p)
     for kind, c in sorted(kc.items()):
         init = c.methods['__init__']
         gm = GuardMap(init.node)
@@ -146,6 +154,40 @@ def nullg(run, p, kc):
                       or ' is not None' in ast.unparse(g.test)) for g in ch)
             if not ok:
                 bad.append(tgt)
+        # the constructor itself, evaluated on the one input the clause is about: value = None
+        try:
+            I.call(init, [None], selfobj=Obj(c))
+            outcome = 'returns'
+        except Raised as e:
+            outcome = 'raises'
+        except (TypeError, ValueError, KeyError, IndexError, AttributeError) as e:
+            outcome = 'fails with %s (%s)' % (type(e).__name__, e)
+        except Unsupported as e:
+            outcome = None
+            run.note('C09-NULLG', '%s(None) not evaluated: %s' % (c.name, e), fn=init)
+        if outcome is not None:
+            run.ob('C09-NULLG', '%s::%s::value=None' % (init.rel, init.short), outcome == 'returns',
+                   '%s(None) %s (abstract evaluation of the constructor and check_validity on the null value)' % (c.name, outcome), fn=init)
+        if outcome is None:
+            # fallback when the constructor could not be evaluated
+            # a validity check applied to the value (or precision) as a whole must list None among the admitted values
+            for x in p.own_nodes(init):
+                if isinstance(x, ast.Call) and isinstance(x.func, ast.Attribute) and x.func.attr == 'check_validity' and len(x.args) >= 3 \
+                        and isinstance(x.args[1], ast.Name) and x.args[1].id in init.params:
+                    admits = False
+                    for v in x.args[2:]:
+                        try:
+                            vals = p.fold(init.mod, v)
+                        except Exception:
+                            vals = None
+                        if isinstance(v, (ast.List, ast.Tuple)) and any(isinstance(e, ast.Constant) and e.value is None for e in v.elts):
+                            admits = True
+                        elif isinstance(vals, (list, tuple, set, frozenset)) and None in vals:
+                            admits = True
+                    run.ob('C09-NULLG', '%s::%s::check_validity(%s)' % (init.rel, init.short, x.args[1].id), admits,
+                           '%s validates %s against %s, which %s None (a null-valued constraint means "no constraint" and must load)'
+                           % (init.short, x.args[1].id, ', '.join(norm(v) for v in x.args[2:]), 'admits' if admits else 'does not admit'),
+                           fn=init, node=x)
         run.ob('C09-NULLG', '%s::%s' % (init.rel, init.short), not bad,
                '%s %s' % (init.short, 'accepts a null value' if not bad else 'uses its value unguarded: `%s` fails for null' % norm(bad[0])[:40]),
                fn=init, node=bad[0] if bad else None)
@@ -244,6 +286,44 @@ def entry(run, p):
     ok = 'json.loads' in ast.unparse(ld.node)
     run.ob('C09-ENTRY', '%s::%s::json' % (ld.rel, ld.short), ok, 'load() parses the file with json.loads', fn=ld, nontrivial=False)
     run.floor('C09-ENTRY', n, 3)
+
+
+def preset(run, p):
+    run.rule('C09-PRESET', 'what a file records wins over constructor defaults: in DatasetConstraints.__init__ no attribute that the '
+                           'loader fills from the file\'s creation metadata (METADATA_KEYS, loadpath) is assigned after self.load(), '
+                           'so a loaded set re-serialises the metadata it was loaded with')
+    from .c10 import stored_names
+    init = p.method('DatasetConstraints', '__init__')
+    ifd = p.method('DatasetConstraints', 'initialize_from_dict')
+    mk = p.fold(init.mod, init.mod.consts['METADATA_KEYS']) if 'METADATA_KEYS' in init.mod.consts else None
+    if not mk:
+        raise AnalysisError('METADATA_KEYS vanished')
+    loaded = set(mk)
+    for x in p.own_nodes(ifd):
+        if isinstance(x, (ast.Assign, ast.AugAssign)):
+            for t in (x.targets if isinstance(x, ast.Assign) else [x.target]):
+                if isinstance(t, ast.Attribute) and isinstance(t.value, ast.Name) and t.value.id == 'self':
+                    loaded.add(t.attr)
+    loads = [x for x in p.own_nodes(init) if isinstance(x, ast.Call) and norm(x.func) in ('self.load', 'self.initialize_from_dict')]
+    if not loads:
+        raise AnalysisError('DatasetConstraints.__init__ no longer loads')
+    first = min(x.lineno for x in loads)
+    n = 0
+    late = []
+    for x in p.own_nodes(init):
+        if isinstance(x, (ast.Assign, ast.AugAssign, ast.AnnAssign)):
+            for t in (x.targets if isinstance(x, ast.Assign) else [x.target]):
+                for a in ast.walk(t):
+                    if isinstance(a, ast.Attribute) and isinstance(a.value, ast.Name) and a.value.id == 'self' and \
+                            isinstance(a.ctx, ast.Store) and a.attr in loaded:
+                        n += 1
+                        if x.lineno > first:
+                            late.append((a.attr, x))
+    run.ob('C09-PRESET', '%s::%s' % (init.rel, init.short), not late,
+           '%d loader-filled attributes are preset, %s' % (n, 'all before self.load()' if not late else
+                                                          '%s is assigned after self.load() and overrides what the file records' % late[0][0]),
+           fn=init, node=late[0][1] if late else None)
+    run.floor('C09-PRESET', n, 8)
 
 
 def strip(run, p):
